@@ -110,9 +110,14 @@ func (b *BuildRequestURL) Build(withParams ...M) *url.URL {
 
 	var n string
 	var varParams = make(map[string]string)
+	var varTexts []string // the distinct var texts, in path order
 
 	// TODO should optimize ...
 	for _, str := range ss {
+		if _, has := varParams[str]; has {
+			continue
+		}
+		varTexts = append(varTexts, str)
 		nvStr := str[1 : len(str)-1]
 
 		if strings.IndexByte(nvStr, ':') > 0 {
@@ -124,11 +129,14 @@ func (b *BuildRequestURL) Build(withParams ...M) *url.URL {
 		}
 	}
 
-	for paramRegex, name := range varParams {
-		path = strings.NewReplacer(paramRegex, goutil.String(b.params[name])).Replace(path)
+	// Notice: replace all vars in ONE pass. replacing one by one (in map order) scans the inserted values again,
+	// so a value like "{b}" would be replaced by a later pass, and the result depended on the map order.
+	oldNew := make([]string, 0, len(varTexts)*2)
+	for _, paramRegex := range varTexts {
+		oldNew = append(oldNew, paramRegex, goutil.String(b.params[varParams[paramRegex]]))
 	}
 
-	u.Path = path
+	u.Path = strings.NewReplacer(oldNew...).Replace(path)
 
 	return u
 }
